@@ -111,7 +111,7 @@ class SEval:
                     env = self.environment
                     steps = expr.steps
                     while steps > 0:
-                        env = self.environment.parent
+                        env = env.parent
                         steps -= 1
 
                     res = env.read(expr.name)
